@@ -446,9 +446,11 @@ fn gen_stages(g: &mut Gen<'_>, n: usize, mut finite: bool, depth: usize) -> (Vec
             2 => Stage::Scan(g.c.choose(3) as u8, [0, 1, 10][g.c.choose(3)]),
             3 | 4 => {
                 finite = true;
-                Stage::Take(1 + g.c.choose(6))
+                // the stream entering gen_stages is always finite, so a count beyond every length
+                // (and beyond the width of a narrower integer) is harmless here
+                if g.c.chance(1, 10) { Stage::Take(boundary_count(g.c)) } else { Stage::Take(1 + g.c.choose(6)) }
             },
-            5 => Stage::Skip(g.c.choose(5)),
+            5 => if g.c.chance(1, 8) { Stage::Skip(boundary_count(g.c)) } else { Stage::Skip(g.c.choose(5)) },
             6 => {
                 // the running stream must be finite before something is appended, or the rest never runs
                 // (that is fine semantically, but then an unbounded tail would need a dominating take)
@@ -471,6 +473,17 @@ fn gen_stages(g: &mut Gen<'_>, n: usize, mut finite: bool, depth: usize) -> (Vec
         v.push(st);
     }
     (v, finite)
+}
+
+/// counts at and just beyond the widths of the narrower integer types (a count that is stored or
+/// compared in fewer bits than `usize` goes wrong exactly there)
+pub fn boundary_count(c: &mut Chooser) -> usize {
+    let base: usize = [1 << 8, 1 << 16, 1 << 31, 1 << 32, 1 << 40, 3 << 32, usize::MAX - 3][c.choose(7)];
+    match c.choose(3) {
+        0 => base.wrapping_sub(1).max(1),
+        1 => base,
+        _ => base.saturating_add(1 + c.choose(3)),
+    }
 }
 
 fn gen_stages_simple(g: &mut Gen<'_>, n: usize) -> (Vec<Stage>, bool) {
@@ -501,7 +514,14 @@ fn gen_pipe(g: &mut Gen<'_>, depth: usize, must_be_finite: bool) -> Pipe {
     } else {
         let leaf = g.next_leaf;
         g.next_leaf += 1;
-        let len = if unbounded { None } else { Some([0, 1, 2, 3, 5, 8, 13][g.c.choose(7)]) };
+        let len = if unbounded {
+            None
+        } else if g.c.chance(1, 12) {
+            // now and then a long source (hundreds of items: long histories through every stage)
+            Some([40, 70, 130, 300][g.c.choose(4)])
+        } else {
+            Some([0, 1, 2, 3, 5, 8, 13][g.c.choose(7)])
+        };
         Src0::Iter(IterSpec { leaf, start: [0, 1, 7, 100][g.c.choose(4)], len })
     };
     let is_unbounded = matches!(&src, Src0::Iter(i) if i.len.is_none());
